@@ -6,6 +6,7 @@ from pyvc.contracts import Contract, LoopSpec, ClassSpec
 from pyvc.smt import T
 from pyvc.sym import Num
 from pyvc.speclib import lst_term
+from pyvc.verify import Lemma
 
 HF = "lena/structures/hist_functions.py"
 HI = "lena/structures/histogram.py"
@@ -45,6 +46,9 @@ def register(ix):
     register_scale(ix)
     register_add(ix)
     register_nevents(ix)
+    register_split_into_bins(ix)
+    register_iter_cells(ix)
+    register_lemmas(ix)
 
 
 # ---------------------------------------------------------------------------------------------- get_bin_on_index
@@ -139,7 +143,12 @@ def register_init_bins(ix):
                      "not deepcopy implies " + b2("bins[i][j] is value")])},
                  ensures=["len(result) == len(edges[0]) - 1",
                           "all(len(result[i]) == len(edges[1]) - 1 for i in range(len(result)))"]
-                 + own("result[i][j]", r2) + ["deepcopy implies " + DISTINCT2.format(b="result")]),
+                 + own("result[i][j]", r2) + ["deepcopy implies " + DISTINCT2.format(b="result"),
+                                               # (ground instance of the clauses above: the first cell)
+                                               "deepcopy and len(result) > 0 and len(result[0]) > 0 implies "
+                                               "result[0][0] is not value and copy_of(result[0][0], value)",
+                                               "deepcopy and len(result) > 1 and len(result[0]) > 0 and len(result[1]) > 0 "
+                                               "implies result[0][0] is not result[1][0]"]),
         Contract(HF, "init_bins", name="init_bins[[x-edges], element]",
                  params={"edges": "PyList[1,Lst[Real]]", "value": "Obj", "deepcopy": "Bool"}, result="Lst[Obj]",
                  defaults={"deepcopy": False}, ghost={"alloc": True},
@@ -342,14 +351,19 @@ def register_scale(ix):
                      defaults={"recompute": False}, post_class="histogram_scaled",
                      raises={"LenaValueError": SC + " == 0"},
                      exc_ensures={"LenaValueError": untouched},
-                     ensures=rescaled("old(%s)" % SC),
+                     lemmas=["integral1d_scaled(self.bins, old(self.bins), self.edges, other, old(%s), len(self.bins))" % SC],
+                     # C12: the recomputed scale equals the requested one (over the reals)
+                     ensures=rescaled("old(%s)" % SC) + [SC + " == other"],
                      modifies=["self.bins", "self.n_out_of_range", "self._scale"]),
             Contract(HI, "histogram.scale", name="histogram.scale[set, computed before]",
                      params={"self": "Self[histogram_scaled]", "other": "Real", "recompute": "Bool"}, result=None,
                      defaults={"recompute": False},
                      raises={"LenaValueError": "self._scale == 0"},
                      exc_ensures={"LenaValueError": untouched + ["self._scale == old(self._scale)"]},
-                     ensures=rescaled("old(self._scale)"),
+                     lemmas=["integral1d_scaled(self.bins, old(self.bins), self.edges, other, old(self._scale), len(self.bins))"],
+                     # the true integral is rescaled by the same factor (it equals `other` iff the stored scale was current)
+                     ensures=rescaled("old(self._scale)") + ["%s == old(%s) * other / old(self._scale)" % (SC, SC),
+                                                             "old(self._scale) == old(%s) implies %s == other" % (SC, SC)],
                      modifies=["self.bins", "self.n_out_of_range", "self._scale"]),
         ]))
 
@@ -398,6 +412,8 @@ def register_add(ix):
                               "len(result.bins) == len(self.bins)",
                               "all(result.bins[i] == self.bins[i] + weight * other.bins[i] for i in range(len(result.bins)))",
                               "result.n_out_of_range == self.n_out_of_range + weight * other.n_out_of_range",
+                              # (ground instance of the cell-wise clause: the first cell)
+                              "len(result.bins) > 0 and result.bins[0] == self.bins[0] + weight * other.bins[0]",
                               "result.edges == self.edges", "result._scale is None", "result.dim == 1",
                               "result.nbins[0] == self.nbins[0]"],
                      modifies=[],       # operands unmodified: every field and list of self and other (frame)
@@ -433,7 +449,336 @@ def register_nevents(ix):
         defaults={"include_out_of_range": False},
         raises={"LenaValueError": total + " == 0"},
         exc_ensures={"LenaValueError": ["self.n_out_of_range == old(self.n_out_of_range)"]},
-        ensures=["len(self.bins) == old(len(self.bins))",
-                 "all(self.bins[i] == old(self.bins[i]) * (nevents / old(%s)) for i in range(len(self.bins)))" % total,
+        lemmas=["lsum_scaled(self.bins, old(self.bins), nevents, old(%s), len(self.bins))" % total],
+        # C12: set_nevents(n) makes get_nevents() equal n (same include_out_of_range)
+        ensures=["%s == nevents" % total,
+                 "len(self.bins) == old(len(self.bins))",
+                 "all(self.bins[i] == old(self.bins[i]) * nevents / old(%s) for i in range(len(self.bins)))" % total,
                  "self.n_out_of_range == old(self.n_out_of_range) * (nevents / old(%s))" % total],
         modifies=["self.bins", "self.n_out_of_range"]))
+
+
+# ---------------------------------------------------------------------------------------------- SplitIntoBins.fill
+def sp_el_fill_pair(ip, st, pos, kws):
+    """el_fill_pair(el, s, data, context): state of el after fill((data, context)) in state s"""
+    from pyvc.dicts import dterm
+    from pyvc.sym import Opaque
+    f = ip.reg.ufun("el_fill", ["Obj", "St", "V"], "St")
+    g = ip.reg.ufun("mkpair_ctx", ["V", "Val"], "V")
+    v = "(%s %s %s)" % (g, pos[2].t.s, dterm(ip, st, pos[3]).s)
+    return Opaque(T("(%s %s %s %s)" % (f, pos[0].t.s, pos[1].t.s, v), "St"))
+
+
+def sp_el_fill_pair_stops(ip, st, pos, kws):
+    from pyvc.dicts import dterm
+    from pyvc.sym import Bool
+    f = ip.reg.ufun("el_fill_stops", ["Obj", "St", "V"], "Bool")
+    g = ip.reg.ufun("mkpair_ctx", ["V", "Val"], "V")
+    v = "(%s %s %s)" % (g, pos[2].t.s, dterm(ip, st, pos[3]).s)
+    return Bool(T("(%s %s %s %s)" % (f, pos[0].t.s, pos[1].t.s, v), "Bool"))
+
+
+def _elst(ip, st):
+    cur = st.env.get("$elst")
+    old = ip.oldst.env.get("$elst") if ip.oldst is not None else None
+    if cur is None or old is None:
+        from pyvc.interp import Unsupported
+        raise Unsupported("element-state frame clause in a contract without ghost elstate")
+    return cur.t, old.t
+
+
+def sp_elstate_only(ip, st, pos, kws):
+    """elstate_only(el): no element other than el changed its state since the pre-state"""
+    from pyvc.sym import Bool
+    cur, old = _elst(ip, st)
+    e = pos[0].t.s
+    return Bool(T("(= %s (store %s %s (select %s %s)))" % (cur.s, old.s, e, cur.s, e), "Bool"))
+
+
+def sp_elstate_same(ip, st, pos, kws):
+    """elstate_same(): no element changed its state since the pre-state"""
+    from pyvc.sym import Bool
+    cur, old = _elst(ip, st)
+    return Bool(T("(= %s %s)" % (cur.s, old.s), "Bool") if cur.s != old.s else T("true", "Bool"))
+
+
+def register_split_into_bins(ix):
+    """SplitIntoBins.fill docstring: `Fill the cell corresponding to arg_var(val) with val.  Values outside the edges are
+    ignored.`  C11: fill routes by get_bin_on_value (cell k holds the values with edges[k] <= arg < edges[k+1]) and
+    ignores under/overflow; the stored context is a deep copy (`deep copy, because internal sequences may modify
+    context`), i.e. it is taken before the cell sees the value."""
+    for n, f in [("el_fill_pair", sp_el_fill_pair), ("el_fill_pair_stops", sp_el_fill_pair_stops),
+                 ("elstate_only", sp_elstate_only), ("elstate_same", sp_elstate_same)]:
+        ix.spec_names[n] = f
+    DIST1 = "all(all(implies(i != j, self.bins[i] is not self.bins[j]) for j in range(len(self.bins))) for i in range(len(self.bins)))"
+    ix.add_class(ClassSpec(
+        "SplitIntoBins_1d", SB, alias_of="SplitIntoBins",
+        fields={"bins": "Lst[Obj]", "edges": "Lst[Real]", "_arg_func": "Fn[V,Real]", "_cur_context": "Dict"},
+        # cells are private deep copies of the analysis (init_bins(edges, seq, deepcopy=True)): pairwise different objects
+        invariant=["len(self.edges) >= 2", mono("self.edges"), "len(self.bins) == len(self.edges) - 1", DIST1]))
+    X = "self._arg_func({data})"
+    INCELL = "(self.edges[k] <= {x} < self.edges[k + 1])"
+    INR = "(self.edges[0] <= {x} < self.edges[len(self.edges) - 1])"
+
+    def fill_1d(name, val_ty, data, ctx_now, ctx_old, requires, extra_mod):
+        x = X.format(data=data)
+        incell, inr = INCELL.format(x=x), INR.format(x=x)
+        filled = "el_fill_pair(self.bins[k], old(elstate(self.bins[k])), %s, %s)" % (data, ctx_old) if ctx_old else \
+                 "el_fill(self.bins[k], old(elstate(self.bins[k])), val)"
+        stops = "el_fill_pair_stops(self.bins[k], elstate(self.bins[k]), %s, %s)" % (data, ctx_now) if ctx_old else \
+                "el_fill_stops(self.bins[k], elstate(self.bins[k]), val)"
+        ens = [
+            # exactly the cell get_bin_on_value gives sees the value, every other cell (and any other element) keeps its state
+            "all(elstate(self.bins[k]) == (%s if %s else old(elstate(self.bins[k]))) for k in range(len(self.bins)))" % (filled, incell),
+            "all(implies(%s, elstate_only(self.bins[k])) for k in range(len(self.bins)))" % incell,
+            # the stored context: a deep copy of the value's context as it ARRIVED
+            "%s implies is_deep_copy(self._cur_context)" % inr,
+            "%s implies self._cur_context == %s" % (inr, ctx_old or "vctx(val)"),
+            # values outside the edges are ignored completely
+            "not %s implies elstate_same()" % inr,
+            "not %s implies self._cur_context == old(self._cur_context)" % inr,
+        ]
+        if ctx_old:
+            ens.append("not %s implies %s == %s" % (inr, ctx_now, ctx_old))
+        return Contract(
+            SB, "SplitIntoBins.fill", name="SplitIntoBins.fill[1-d, %s]" % name, dict_model="Val",
+            params={"self": "Self[SplitIntoBins_1d]", "val": val_ty}, result=None, requires=requires,
+            ghost={"elstate": True, "fill_mutates_context": True},
+            # the cell's own fill may signal LenaStopFill: it is the cell the value belongs to that decides
+            raises={"LenaStopFill": "any(%s and %s for k in range(len(self.bins)))" % (incell, stops)},
+            # ownership: when the cell is filled the context kept for compute() has already been copied
+            at_call={"fill": ["is_deep_copy(context)", "call_args[0] is val"]},
+            ensures=ens, modifies=["self._cur_context"] + extra_mod)
+    # ---- 2-d edges
+    DIST2 = ("all(all(all(all(implies(i != i2 or j != j2, self.bins[i][j] is not self.bins[i2][j2]) for j2 in range(len(self.bins[i2])))"
+             " for i2 in range(len(self.bins))) for j in range(len(self.bins[i]))) for i in range(len(self.bins)))")
+    ix.add_class(ClassSpec(
+        "SplitIntoBins_2d", SB, alias_of="SplitIntoBins",
+        fields={"bins": "Lst[Lst[Obj]]", "edges": "PyList[2,Lst[Real]]", "_arg_func": "Fn[V,Tuple[Real,Real]]",
+                "_cur_context": "Dict"},
+        invariant=["len(self.edges[0]) >= 2", "len(self.edges[1]) >= 2", mono("self.edges[0]"), mono("self.edges[1]"),
+                   "len(self.bins) == len(self.edges[0]) - 1",
+                   "all(len(self.bins[i]) == len(self.edges[1]) - 1 for i in range(len(self.bins)))", DIST2]))
+
+    def fill_2d(name, val_ty, data, ctx_now, ctx_old, requires, extra_mod):
+        x = X.format(data=data)
+        incell = "(self.edges[0][i] <= {x}[0] < self.edges[0][i + 1] and self.edges[1][j] <= {x}[1] < self.edges[1][j + 1])".format(x=x)
+        inr = ("(self.edges[0][0] <= {x}[0] < self.edges[0][len(self.edges[0]) - 1] and "
+               "self.edges[1][0] <= {x}[1] < self.edges[1][len(self.edges[1]) - 1])").format(x=x)
+        cell = "self.bins[i][j]"
+        filled = "el_fill_pair(%s, old(elstate(%s)), %s, %s)" % (cell, cell, data, ctx_old) if ctx_old else \
+                 "el_fill(%s, old(elstate(%s)), val)" % (cell, cell)
+        stops = "el_fill_pair_stops(%s, elstate(%s), %s, %s)" % (cell, cell, data, ctx_now) if ctx_old else \
+                "el_fill_stops(%s, elstate(%s), val)" % (cell, cell)
+        allij = lambda body: "all(all(%s for j in range(len(self.bins[i]))) for i in range(len(self.bins)))" % body
+        ens = [
+            allij("elstate(%s) == (%s if %s else old(elstate(%s)))" % (cell, filled, incell, cell)),
+            allij("implies(%s, elstate_only(%s))" % (incell, cell)),
+            "%s implies is_deep_copy(self._cur_context)" % inr,
+            "%s implies self._cur_context == %s" % (inr, ctx_old or "vctx(val)"),
+            "not %s implies elstate_same()" % inr,
+            "not %s implies self._cur_context == old(self._cur_context)" % inr,
+        ]
+        if ctx_old:
+            ens.append("not %s implies %s == %s" % (inr, ctx_now, ctx_old))
+        return Contract(
+            SB, "SplitIntoBins.fill", name="SplitIntoBins.fill[2-d, %s]" % name, dict_model="Val",
+            params={"self": "Self[SplitIntoBins_2d]", "val": val_ty}, result=None, requires=requires,
+            ghost={"elstate": True, "fill_mutates_context": True},
+            raises={"LenaStopFill": "any(any(%s and %s for j in range(len(self.bins[i]))) for i in range(len(self.bins)))" % (incell, stops)},
+            at_call={"fill": ["is_deep_copy(context)", "call_args[0] is val"]},
+            ensures=ens, modifies=["self._cur_context"] + extra_mod)
+    ix.add(Contract(
+        SB, "SplitIntoBins.fill", props=["C11"],
+        cases=[
+            fill_2d("(data, context)", "Tuple[V,Dict]", "val[0]", "val[1]", "old(val[1])", ["isdict(val[1])"], ["val[1]"]),
+            fill_2d("flow value", "V", "(vdata(val) if v_has_context(val) else val)", None, None, [], []),
+            fill_1d("(data, context)", "Tuple[V,Dict]", "val[0]", "val[1]", "old(val[1])", ["isdict(val[1])"], ["val[1]"]),
+            # an abstract flow value (a pair or bare data: v_has_context tells; vctx(v) is {} for bare data)
+            fill_1d("flow value", "V", "(vdata(val) if v_has_context(val) else val)", None, None, [], []),
+        ]))
+
+
+# ---------------------------------------------------------------------------------------------- iter_bins_with_edges, iter_cells
+def register_iter_cells(ix):
+    """iter_bins_with_edges docstring: `Generate (bin content, bin edges) pairs.  Bin edges is a tuple, such that its item
+    at index i is (lower bound, upper bound) of the bin at i-th coordinate.`
+    iter_cells docstring: `For each bin, yield a HistCell containing bin edges, bin content and bin index.  The order of
+    iteration is the same as for iter_bins.  ranges are the ranges of bin indices to be used for each coordinate (the
+    lower value is included, the upper value is excluded). ... None as an upper or lower range means no limit ... If a
+    range index is lower than 0 or higher than possible index, LenaValueError is raised.`
+    C12: iter_bins, iter_bins_with_edges and iter_cells agree on content, index and edges."""
+    ix.add(Contract(
+        HF, "iter_bins_with_edges", props=["C12"],
+        cases=[
+            Contract(HF, "iter_bins_with_edges", name="iter_bins_with_edges[1-d]",
+                     params={"bins": "Lst[Real]", "edges": "Lst[Real]"}, generator=True,
+                     yields="Tuple[Real,Tuple[Tuple[Real,Real]]]",
+                     requires=["len(edges) >= 1", "len(bins) == len(edges) - 1"],
+                     # (the function rebinds its parameter `edges` to [edges]: old(edges) is the argument)
+                     loops={0: LoopSpec(invariant=[
+                         "len(out) == _i",
+                         "all(out[k] == (bins[k], ((old(edges)[k], old(edges)[k + 1]),)) for k in range(len(out)))"])},
+                     at_yield=["yielded[0] == bins[len(out)]", "yielded[1][0][0] == old(edges)[len(out)]",
+                               "yielded[1][0][1] == old(edges)[len(out) + 1]"],
+                     out_def=("len(bins)", "k", "(bins[k], ((edges[k], edges[k + 1]),))"),
+                     ensures=["len(out) == len(bins)",
+                              "all(out[k] == (bins[k], ((edges[k], edges[k + 1]),)) for k in range(len(out)))"]),
+        ]))
+    # ---- iter_cells, 1-d histogram
+    HREQ = [inv.replace("self.", "hist.") for inv in H1_INV]
+
+    def cells(name, ranges_ty, low, up, bad):
+        # cell number k of the range is bin low + k: its edges, its content, its index
+        n = "(%s - %s)" % (up, low)
+        item = ["out[k][0][0][0] == hist.edges[{lo} + k]", "out[k][0][0][1] == hist.edges[{lo} + k + 1]",
+                "out[k][1] == hist.bins[{lo} + k]", "out[k][2][0] == {lo} + k", "len(out[k][2]) == 1", "len(out[k][0]) == 1"]
+        allk = "all(%s for k in range(len(out)))" % " and ".join(item).format(lo=low)
+        return Contract(
+            HF, "iter_cells", name="iter_cells[1-d, %s]" % name,
+            params={"hist": "Inst[histogram_any]", "ranges": ranges_ty, "coord_ranges": "None"},
+            defaults={"ranges": None, "coord_ranges": None},
+            generator=True, yields="Tuple[PyList[1,Tuple[Real,Real]],Real,Tuple[Int]]",
+            requires=HREQ, raises={"LenaValueError": bad},
+            loops={2: LoopSpec(invariant=["len(out) == _i", allk])},
+            at_yield=["yielded[2][0] == %s + len(out)" % low, "yielded[1] == hist.bins[%s + len(out)]" % low],
+            # an empty range (also an upper index 0) yields nothing
+            ensures=["len(out) == (%s if %s > 0 else 0)" % (n, n), allk],
+            modifies=[])
+    NB = "(len(hist.edges) - 1)"
+    # FINDING (docstring vs code, not part of any property run: props=[]).  The docstring sentence `If a range index is
+    # lower than 0 or higher than possible index, LenaValueError is raised` read for BOTH indices of a range.  The code only
+    # rejects low < 0 and up > len(edges)-1: ranges=((3, None),) or ((0, -1),) on a 2-bin histogram silently yield nothing.
+    # `python3-vt tools/dbg.py lena/structures/hist_functions.py "iter_cells#docstring-literal"` shows the failed obligation.
+    lit = cells("ranges=((low, up),), every range index checked", "Tuple[Tuple[Int,Int]]", "ranges[0][0]", "ranges[0][1]",
+                "ranges[0][0] < 0 or ranges[0][0] > {nb} or ranges[0][1] < 0 or ranges[0][1] > {nb}".format(nb=NB))
+    ix.add(Contract(HF, "iter_cells", props=[], qualkey="iter_cells#docstring-literal", cases=[lit],
+                    notes="documents a finding; deliberately not attached to a property"))
+    ix.add(Contract(
+        HF, "iter_cells", props=["C12"],
+        cases=[
+            cells("all cells", "None", "0", NB, "False"),
+            cells("ranges=((low, up),)", "Tuple[Tuple[Int,Int]]", "ranges[0][0]", "ranges[0][1]",
+                  "ranges[0][0] < 0 or ranges[0][1] > " + NB),
+            cells("ranges=((None, up),)", "Tuple[Tuple[None,Int]]", "0", "ranges[0][1]", "ranges[0][1] > " + NB),
+            cells("ranges=((low, None),)", "Tuple[Tuple[Int,None]]", "ranges[0][0]", NB, "ranges[0][0] < 0"),
+            cells("ranges=((None, None),)", "Tuple[Tuple[None,None]]", "0", NB, "False"),
+        ]))
+
+
+# ---------------------------------------------------------------------------------------------- lemmas (scaling)
+# Rescaling every cell by num/den rescales the integral (resp. the sum of the cells) by num/den.  The statements are
+# proved for ALL arguments by induction on n (Lemma units below); a contract uses an instance through `lemmas=[...]`.
+LR = "Lst_Real"
+INT_DEF = ("(define-fun-rec integral1d ((b {l}) (e {l}) (n Int)) Real (ite (<= n 0) 0.0 (+ (integral1d b e (- n 1)) "
+           "(* (- (select (arr_{l} e) n) (select (arr_{l} e) (- n 1))) (select (arr_{l} b) (- n 1))))))").format(l=LR)
+
+
+def scaled_cells(b2, b1, num, den, n, i):
+    return ("(forall (({i} Int)) (=> (and (<= 0 {i}) (< {i} {n})) (= (select (arr_{l} {b2}) {i}) "
+            "(/ (* (select (arr_{l} {b1}) {i}) {num}) {den}))))").format(i=i, n=n, b2=b2, b1=b1, num=num, den=den, l=LR)
+
+
+def integral_scaled_stmt(b2, b1, e, num, den, n, i="li"):
+    return "(=> (and (not (= {den} 0.0)) {cells}) (= (integral1d {b2} {e} {n}) (/ (* (integral1d {b1} {e} {n}) {num}) {den})))".format(
+        den=den, cells=scaled_cells(b2, b1, num, den, n, i), b2=b2, b1=b1, e=e, n=n, num=num)
+
+
+def lsum_scaled_stmt(b2, b1, num, den, n, i="li"):
+    return "(=> (and (not (= {den} 0.0)) {cells}) (= (lsum_Real {b2} {n}) (/ (* (lsum_Real {b1} {n}) {num}) {den})))".format(
+        den=den, cells=scaled_cells(b2, b1, num, den, n, i), b2=b2, b1=b1, n=n, num=num)
+
+
+def _real(ip, v):
+    from pyvc.smt import to_real
+    return to_real(ip.num(v))
+
+
+def sp_integral1d_scaled(ip, st, pos, kws):
+    """integral1d_scaled(new_bins, old_bins, edges, num, den, n): instance of the lemma `if den != 0 and every one of the
+    first n cells of new_bins is the cell of old_bins times num/den, then integral1d(new_bins, edges, n) ==
+    integral1d(old_bins, edges, n) * num / den`"""
+    from pyvc.sym import Bool
+    reg = ip.reg
+    lr = reg.lst("Real")
+    reg.fun_decl("integral1d", INT_DEF)
+    b2, b1, e = [lst_term(ip, st, p, lr) for p in pos[:3]]
+    return Bool(T(integral_scaled_stmt(b2.s, b1.s, e.s, _real(ip, pos[3]).s, _real(ip, pos[4]).s, ip.num(pos[5]).s,
+                                       "li%d" % next(ip.bound)), "Bool"))
+
+
+def sp_lsum_scaled(ip, st, pos, kws):
+    """lsum_scaled(new_bins, old_bins, num, den, n): the same for the sum of the first n cells"""
+    from pyvc.sym import Bool
+    from pyvc.histlib import declare_lsum
+    reg = ip.reg
+    lr = reg.lst("Real")
+    declare_lsum(reg, lr)
+    b2, b1 = [lst_term(ip, st, p, lr) for p in pos[:2]]
+    return Bool(T(lsum_scaled_stmt(b2.s, b1.s, _real(ip, pos[2]).s, _real(ip, pos[3]).s, ip.num(pos[4]).s,
+                                   "li%d" % next(ip.bound)), "Bool"))
+
+
+def induction_lemma(kind):
+    """proof of the scaling lemma by induction on n, for arbitrary lists / factors (fresh constants).  The reference
+    function is used through instances of its defining equation f(.., n) = ite(n <= 0, 0, f(.., n - 1) + term(n - 1))
+    only (the symbol itself is left uninterpreted here, so that the solver does not unfold it on its own):
+      base   n <= 0:  statement(n)
+      step-a n > 0:   premise(n) implies premise(n - 1)                       (so the induction hypothesis applies)
+      step-b n > 0:   premise(n), conclusion(n - 1), definitions at n  =>  conclusion(n)"""
+    def build(ip, st):
+        from pyvc.interp import VC
+        reg = ip.reg
+        lr = reg.lst("Real")
+        fn = "integral1d" if kind == "integral" else "lsum_Real"
+        reg.fun_decl(fn, "(declare-fun %s (%s) Real)" % (fn, " ".join([lr, lr, "Int"] if kind == "integral" else [lr, "Int"])))
+        b2, b1, e = reg.new("new_bins", lr), reg.new("old_bins", lr), reg.new("edges", lr)
+        num, den, n = reg.new("num", "Real"), reg.new("den", "Real"), reg.new("n", "Int")
+
+        def f(b, nn):
+            return "(integral1d %s %s %s)" % (b, e.s, nn) if kind == "integral" else "(lsum_Real %s %s)" % (b, nn)
+
+        def premise(nn):
+            return "(and (not (= %s 0.0)) %s)" % (den.s, scaled_cells(b2.s, b1.s, num.s, den.s, nn, "li"))
+
+        def conclusion(nn):
+            return "(= %s (/ (* %s %s) %s))" % (f(b2.s, nn), f(b1.s, nn), num.s, den.s)
+
+        def definition(b, nn):
+            cell = "(select (arr_{l} {b}) (- {n} 1))".format(l=LR, b=b, n=nn)
+            if kind == "integral":
+                cell = "(* (- (select (arr_{l} {e}) {n}) (select (arr_{l} {e}) (- {n} 1))) {c})".format(l=LR, e=e.s, n=nn, c=cell)
+            return "(= %s (ite (<= %s 0) 0.0 (+ %s %s)))" % (f(b, nn), nn, f(b, "(- %s 1)" % nn), cell)
+        # the statement proved is exactly the one the lemma function hands out
+        stmt = integral_scaled_stmt(b2.s, b1.s, e.s, num.s, den.s, n.s) if kind == "integral" else \
+            lsum_scaled_stmt(b2.s, b1.s, num.s, den.s, n.s)
+        assert stmt == "(=> %s %s)" % (premise(n.s), conclusion(n.s)), (stmt, premise(n.s), conclusion(n.s))
+        nm1 = "(- %s 1)" % n.s
+        base = st.copy()
+        base.assume(T("(<= %s 0)" % n.s, "Bool"))
+        base.assume(T(definition(b2.s, n.s), "Bool"))
+        base.assume(T(definition(b1.s, n.s), "Bool"))
+        ip.emit("lemma", "scaling lemma (%s): base case n <= 0" % kind, base, T(stmt, "Bool"))
+        sa = st.copy()
+        sa.assume(T("(> %s 0)" % n.s, "Bool"))
+        sa.assume(T(premise(n.s), "Bool"))
+        ip.emit("lemma", "scaling lemma (%s): step, the premise for n gives the premise for n - 1" % kind, sa, T(premise(nm1), "Bool"))
+        sb = st.copy()
+        sb.assume(T("(> %s 0)" % n.s, "Bool"))
+        sb.assume(T(premise(n.s), "Bool"))
+        sb.assume(T(conclusion(nm1), "Bool"))               # induction hypothesis (its premise holds by step-a)
+        sb.assume(T(definition(b2.s, n.s), "Bool"))
+        sb.assume(T(definition(b1.s, n.s), "Bool"))
+        ip.emit("lemma", "scaling lemma (%s): step n - 1 -> n" % kind, sb, T(conclusion(n.s), "Bool"))
+        ip.vcs.append(VC("cover requires", "cover", list(sb.pc), T("false", "Bool"), ""))
+    return build
+
+
+def register_lemmas(ix):
+    ix.spec_names["integral1d_scaled"] = sp_integral1d_scaled
+    ix.spec_names["lsum_scaled"] = sp_lsum_scaled
+    ix.lemma_functions = set(getattr(ix, "lemma_functions", ())) | {"integral1d_scaled", "lsum_scaled"}
+    ix.lemmas.append(Lemma("integral1d: rescaling the cells rescales the integral", HF, ["C12"], induction_lemma("integral"),
+                           notes="induction on the number of cells; used by histogram.scale through lemmas=[...]"))
+    ix.lemmas.append(Lemma("lsum: rescaling the cells rescales their sum", HI, ["C12"], induction_lemma("lsum"),
+                           notes="induction on the number of cells; used by histogram.set_nevents through lemmas=[...]"))
